@@ -570,13 +570,19 @@ func (x *X) eqV(a, b Val) string {
 		}
 		return sAnd(cs...)
 	case Sl:
+		// slices are equal when they have the same length and the same backing arrays (representation equality: stronger
+		// than Go's element-wise equality, hence sound to assume only where it was proved; it holds for copies, which is
+		// how the module passes slices around, and it keeps equalities quantifier-free)
 		bs := b.(Sl)
 		cs := []string{sEq(y.Len, bs.Len)}
 		if y.Elem != nil && bs.Elem != nil {
-			j := x.bound("j", "Int")
-			inner := x.eqV(selV(y.Elem, j), selV(bs.Elem, j))
-			if inner != "true" {
-				cs = append(cs, fmt.Sprintf("(forall ((%s Int)) (=> (and (<= 0 %s) (< %s %s)) %s))", j, j, j, y.Len, inner))
+			var la, lb []leaf
+			leaves(y.Elem, "", &la)
+			leaves(bs.Elem, "", &lb)
+			if len(la) == len(lb) {
+				for i := range la {
+					cs = append(cs, sEq(la[i].S.T, lb[i].S.T))
+				}
 			}
 		}
 		return sAnd(cs...)
